@@ -784,7 +784,7 @@ outer:
 	c.Note("history_bfs", map[string]any{"max_depth": depth, "distinct_states": states, "histories_run": trans, "alphabet": alphabet})
 
 	// (a) manager-level BFS (one execution; the BFS runs inside it)
-	md := drv.Pick(c, 4, 6)
+	md := drv.Pick(c, 6, 8)
 	rs, err := pool.RunBatch([]string{fmt.Sprintf("mgr/bfs%d", md)}, true)
 	if err != nil {
 		c.Cap("harness error: " + err.Error())
